@@ -34,6 +34,14 @@ pub fn property() -> Property {
                 replay: |v| replay_case::<SmCase, _>(v, check_searchmoves),
             },
             Part {
+                name: "exact_deep_no_table",
+                quick: 1_600,
+                thorough: 40_000,
+                single_shard: false, supplementary: false,
+                run: |cfg| run_part(cfg, (prop_oneof![3 => gen::raw_pos_endgames(), 1 => gen::raw_pos(70), 1 => gen::raw_synth_profiles(8, 9).prop_map(gen::RawPos::Synth)], gen::raw_playout(6), 4..=5u32, any::<u16>()), |(r, h, d, x)| deep_case(r, h, *d, *x), |c, ctx| check_deep(c, ctx)),
+                replay: |v| replay_case::<DeepCase, _>(v, |c, ctx| check_deep(c, ctx)),
+            },
+            Part {
                 name: "mates",
                 quick: 2_000,
                 thorough: 40_000,
@@ -82,6 +90,18 @@ fn exact_case(r: &gen::RawPos, depth: u32, w: &[(gen::RawPos, u32, u8)]) -> Exac
                 } else {
                     warmup.push((p.fen(), vec![], *d));
                 }
+            }
+            // the same placement with OTHER clocks (nothing remembered about a placement may carry clock-dependent
+            // facts over: the fifty-move rule at the horizon, the mate distance)
+            6 | 7 => {
+                let mut q = p.clone();
+                if *sel == 6 {
+                    q.half = 96 + (*d as u64 % 4);
+                } else {
+                    q.full += 37 + *d as u64;
+                    q.half = (q.half + 9).min(60);
+                }
+                warmup.push((q.fen(), vec![], *d));
             }
             _ => warmup.push((gen::position(r2, ClockDomain::EngineQuiet).fen(), vec![], *d)),
         }
@@ -145,6 +165,9 @@ pub fn check_exact(c: &ExactCase, ctx: &mut Ctx) -> Result<(), String> {
     ctx.class(&format!("warmups_{}", c.warmup.len()));
     if c.warmup.iter().any(|(f, _, d)| *f == c.fen && *d > c.depth) {
         ctx.class("same_position_searched_deeper_before");
+    }
+    if c.warmup.iter().any(|(f, _, _)| *f != c.fen && f.split(' ').take(4).eq(c.fen.split(' ').take(4))) {
+        ctx.class("same_placement_searched_with_other_clocks_before");
     }
     if c.warmup.iter().any(|(_, h, _)| !h.is_empty()) {
         ctx.class("earlier_game_history_through_the_same_position");
@@ -329,5 +352,132 @@ pub fn check_searchmoves(c: &SmCase, ctx: &mut Ctx) -> Result<(), String> {
         }
     }
     ctx.sample(|| serde_json::json!({"fen": c.fen, "searchmove": c.mv, "depth": c.depth, "score": got}));
+    Ok(())
+}
+
+// ------------------------------------------------------------------------------------------------
+// depth 4..5 (6 on tiny trees): exact again once the transposition cache keeps nothing (hook): the production search
+// code, driven synchronously, over the whole game tree with the draw-by-repetition rule of C10
+
+#[derive(Debug, Clone, Serialize, Deserialize)]
+pub struct DeepCase {
+    pub fen: String,
+    pub history: Vec<String>,
+    pub depth: u32,
+}
+
+fn deep_case(r: &gen::RawPos, h: &gen::RawPlayout, depth: u32, x: u16) -> DeepCase {
+    let mut p = gen::position(r, ClockDomain::EngineQuiet);
+    p.half = p.half.min(30);
+    // a few plies of game, in one case out of three with a take-back shuffle in front so that second occurrences
+    // exist and a third one is in reach of the search
+    let mut history: Vec<Mv> = Vec::new();
+    let mut cur = p.clone();
+    if x % 3 == 0 {
+        let mut q = p.clone();
+        q.ep = None;
+        if let Some(quad) = crate::props::c10::shuffle_quad_pub(&q, x / 3) {
+            p = q;
+            cur = p.clone();
+            let n = [2usize, 3, 4][(x / 3 % 3) as usize];
+            for m in quad.iter().take(n) {
+                history.push(*m);
+                cur = cur.apply(*m);
+            }
+        }
+    }
+    let g = gen::play_from(cur, &h.choices[..h.choices.len().min((x % 5) as usize)]);
+    history.extend(g.moves.iter().copied());
+    DeepCase { fen: p.fen(), history: history.iter().map(Mv::uci).collect(), depth }
+}
+
+/// work bound for the two reference searches of one case
+const DEEP_NODE_BUDGET: u64 = 400_000;
+
+pub fn check_deep(c: &DeepCase, ctx: &mut Ctx) -> Result<(), String> {
+    let start = Pos::from_fen(&c.fen).ok_or_else(|| format!("{HARNESS_PREFIX} bad fen {}", c.fen))?;
+    let hist: Vec<Mv> = c.history.iter().map(|m| Mv::parse(m).ok_or_else(|| format!("{HARNESS_PREFIX} bad move {m}"))).collect::<Result<_, _>>()?;
+    let mut root = start.clone();
+    for m in &hist {
+        if !root.is_legal(*m) {
+            return Err(format!("{HARNESS_PREFIX} illegal history move {m}"));
+        }
+        root = root.apply(*m);
+    }
+    let keys = refsearch::game_keys(&start, &hist);
+    let mut b = eng::board_from_pos(&root);
+    if refsearch::legal(&mut b).is_empty() || root.half + c.depth as u64 >= 95 {
+        ctx.class("skipped_terminal_or_near_fifty");
+        return Ok(());
+    }
+    let mut s = crate::engsess::SyncSearch::new().without_table();
+    let k = s.contempt();
+    // the depth is lowered until the reference fits the work budget (a size bound, not a time limit)
+    let mut depth = c.depth;
+    let mut r = refsearch::root_values_rep(&mut b, &keys, depth, k, 1, DEEP_NODE_BUDGET);
+    while r.is_none() && depth > 3 {
+        depth -= 1;
+        r = refsearch::root_values_rep(&mut b, &keys, depth, k, 1, DEEP_NODE_BUDGET);
+    }
+    let Some((want_a, moves_a, nodes, reps)) = r else {
+        ctx.class("skipped_tree_too_large");
+        return Ok(());
+    };
+    // the property leaves the sign of the contempt offset open: the other convention is accepted as well
+    let (want_b, moves_b) = match if reps > 0 { refsearch::root_values_rep(&mut b, &keys, depth, k, -1, DEEP_NODE_BUDGET * 4) } else { None } {
+        Some((w, m, _, _)) => (w, m),
+        None => (want_a, moves_a.clone()),
+    };
+    s.position(&c.fen, &c.history)?;
+    let what = format!("position fen {} moves {:?}, go depth {depth} (transposition cache disabled through the hook)", c.fen, c.history);
+    let out = s.go(&GoSpec::depth(depth as u64)).map_err(|e| format!("{what}: {e}"))?;
+    let info = out.last_scored().ok_or_else(|| format!("{what}: no info line carries a score"))?;
+    if info.depth != Some(depth) {
+        return Err(format!("{what}: the last scored info is for depth {:?}", info.depth));
+    }
+    let got = score_text(&info.score.unwrap());
+    let (ta, tb) = (refsearch::score_text(want_a, &b), refsearch::score_text(want_b, &b));
+    let (want, moves) = if got == ta {
+        (want_a, &moves_a)
+    } else if got == tb {
+        (want_b, &moves_b)
+    } else {
+        let plain = refsearch::root_value(&mut b, depth).0;
+        return Err(format!("{what}: engine reports score {got}, the exact minimax value is {ta}{} ({reps} lines of the tree end in a third occurrence; without any repetition rule the value would be {})", if tb != ta { format!(" (or {tb} with the opposite contempt sign)") } else { String::new() }, refsearch::score_text(plain, &b)));
+    };
+    let best = out.best_uci().ok_or_else(|| format!("{what}: bestmove 0000"))?;
+    match moves.iter().find(|(u, _)| *u == best) {
+        None => return Err(format!("{what}: bestmove {best} is not a legal move")),
+        Some((_, v)) if *v != want => return Err(format!("{what}: bestmove {best} is worth {} but the position is worth {got}", refsearch::score_text(*v, &b))),
+        _ => {}
+    }
+    if let Some(pv) = &info.principal_variation {
+        if pv.first().map(|m| m.to_string()) != Some(best.clone()) {
+            return Err(format!("{what}: pv starts with {:?} but bestmove is {best}", pv.first().map(|m| m.to_string())));
+        }
+        // the pv is a legal line
+        let mut q = root.clone();
+        for m in pv {
+            let mv = Mv::parse(&m.to_string()).filter(|x| q.is_legal(*x)).ok_or_else(|| format!("{what}: pv {:?} is not a legal line", pv.iter().map(|m| m.to_string()).collect::<Vec<_>>()))?;
+            q = q.apply(mv);
+        }
+    }
+    ctx.evals(1);
+    ctx.class(&format!("depth_{depth}"));
+    if !c.history.is_empty() {
+        ctx.class("with_game_history");
+    }
+    if reps > 0 {
+        ctx.class("third_occurrence_inside_the_tree");
+        let plain = refsearch::root_value(&mut b, depth).0;
+        if plain != want {
+            ctx.class("repetition_rule_decides_the_root_value");
+        }
+    }
+    if want.abs() > refsearch::WIN / 2 {
+        ctx.class("mate_score");
+    }
+    ctx.nontrivial((c.fen.clone(), c.history.clone(), depth));
+    ctx.sample(|| serde_json::json!({"fen": c.fen, "history": c.history, "depth": depth, "score": got, "bestmove": best, "reference_nodes": nodes, "third_occurrence_leaves": reps}));
     Ok(())
 }
